@@ -3,42 +3,12 @@
    (i) every child pointer leads to a node, (ii) every node span contains everything beneath it,
    (iii) searching the image = linear scan over the blocks for every boundary query, and the leaves
    list exactly the blocks in file order.  Drift: the image differs from the model's layout. *)
-EXTENDS RTree, Json, IOUtils
+EXTENDS RTreeImage, Json, IOUtils
 Obs == ndJsonDeserialize(IOEnv.OBS)
 VARIABLE x
 Init == x = 0
 Next == UNCHANGED x
 
-\* o.tree.nodes: sequence of [off, leaf (0/1), items: <<sc, sb, ec, eb, ptr>>]; ptr = child offset (relative to the
-\* index header) or the 1-based file-order number of the block
-ImgOf(t) == [off \in {t.nodes[i].off : i \in 1..Len(t.nodes)} |->
-               LET nd == t.nodes[CHOOSE i \in 1..Len(t.nodes) : t.nodes[i].off = off] IN
-               [leaf |-> nd.leaf = 1, items |-> Map(LAMBDA it : <<<<it[1], it[2], it[3], it[4]>>, it[5]>>, nd.items)]]
-PtrsOK(img) == \A off \in DOMAIN img : img[off].leaf \/ \A i \in 1..Len(img[off].items) : img[off].items[i][2] \in DOMAIN img
-SpanContains(sp, cs) == LexLE(sp[1], sp[2], cs[1], cs[2]) /\ LexLE(cs[3], cs[4], sp[3], sp[4])
-ContainOK(img) == \A off \in DOMAIN img : img[off].leaf \/
-                     \A i \in 1..Len(img[off].items) :
-                        LET ch == img[img[off].items[i][2]] IN
-                        \A k \in 1..Len(ch.items) : SpanContains(img[off].items[i][1], ch.items[k][1])
-HeaderOK(t, secs) ==
-  LET e == LexMax({<<s[1], s[3]>> : s \in Range(secs)}) IN
-  /\ t.itemCount = Len(secs) /\ t.blockSize >= 2
-  /\ t.startChrom = secs[1][1] /\ t.startBase = secs[1][2]
-  /\ LexLE(e[1], e[2], t.endChrom, t.endBase)
-SearchOK(img, secs) ==
-  \A c \in {s[1] : s \in Range(secs)} : \A qs \in BoundaryPoints(secs, c) : \A qe \in BoundaryPoints(secs, c) :
-     qs <= qe => Search(img, c, qs, qe) = LinearScan(secs, c, qs, qe)
-LeavesOK(t, secs) == t.leaves = [i \in 1..Len(secs) |-> <<secs[i][1], secs[i][2], secs[i][1], secs[i][3], i>>]
-
-TreeVerdict(t, secs) ==
-  IF t.error = 1 THEN "undecodable"
-  ELSE LET img == ImgOf(t) IN
-       IF ~PtrsOK(img) THEN "dangling-pointer"
-       ELSE IF ~LeavesOK(t, secs) THEN "leaves"
-       ELSE IF ~ContainOK(img) THEN "containment"
-       ELSE IF ~HeaderOK(t, secs) THEN "header"
-       ELSE IF ~SearchOK(img, secs) THEN "search"
-       ELSE "ok"
 Verdict(o) ==
   IF o.obs.result # "ok" THEN "not-ok"
   ELSE LET v == TreeVerdict(o.tree, o.secs) IN
